@@ -39,6 +39,7 @@ func fieldLoadOf(v ssa.Value, typ, field string) bool {
 }
 
 func runC08(p *an.Prog, r *an.Run, tier string) {
+	checkSurfaceClosed(p, r)
 	rh := p.Method("pool", "VipnodePool", "requestHosts")
 	if rh == nil {
 		r.Undec("anchors", "requestHosts", token.NoPos, "(*VipnodePool).requestHosts not found")
@@ -780,6 +781,55 @@ func runC08(p *an.Prog, r *an.Run, tier string) {
 	}
 	r.Check(len(bad) == 0, "test-bypass", "VipnodePool.skipWhitelist", token.NoPos, "the whitelist bypass is only ever enabled by tests", "%s", strings.Join(bad, "; "))
 
+	// ---- every host list requestHosts returns was collected by this call: no successful return hands back a list that
+	// comes out of another function of the repository (an answer remembered from an earlier request skips the
+	// connected / not-already-a-peer / acknowledged checks of this one)
+	{
+		var rb []string
+		an.AllInstrs(rh, func(in ssa.Instruction) {
+			ret, ok := in.(*ssa.Return)
+			if !ok || len(ret.Results) != 2 || (rh.Recover != nil && ret.Block() == rh.Recover) {
+				return
+			}
+			res := an.RetResults(ret)
+			if c, isC := res[1].(*ssa.Const); !isC || !c.IsNil() {
+				return
+			}
+			for _, nd := range p.Derives(0, res[0]).Nodes {
+				call, isCall := nd.(*ssa.Call)
+				if !isCall {
+					continue
+				}
+				g := call.Call.StaticCallee()
+				if g == nil || !p.InRepo(g) || isStoreMethod(an.CallObj(call)) {
+					continue
+				}
+				// the whitelist round itself, extracted into a helper (it starts the goroutines and collects): judged by
+				// the rules above
+				isFan := false
+				for _, gf := range regionFuncs(p, g) {
+					an.AllInstrs(gf, func(x ssa.Instruction) {
+						switch x.(type) {
+						case *ssa.Go, *ssa.Select:
+							isFan = true
+						}
+					})
+				}
+				if isFan {
+					continue
+				}
+				if sl, isSl := call.Type().Underlying().(*types.Slice); isSl && isNamedType(sl.Elem(), "Node") {
+					rb = append(rb, "the host list returned at "+p.Pos(ret.Pos())+" comes out of "+an.FuncName(g)+" ("+p.Pos(call.Pos())+"), not out of this request's whitelist round")
+				}
+				if tup, isT := call.Type().(*types.Tuple); isT && tup.Len() > 0 {
+					if sl, isSl := tup.At(0).Type().Underlying().(*types.Slice); isSl && isNamedType(sl.Elem(), "Node") {
+						rb = append(rb, "the host list returned at "+p.Pos(ret.Pos())+" comes out of "+an.FuncName(g)+" ("+p.Pos(call.Pos())+"), not out of this request's whitelist round")
+					}
+				}
+			}
+		})
+		r.Check(len(rb) == 0, "ack", an.FuncName(rh)+":collected-here", rh.Pos(), "every returned host list was collected by this call", "%s", strings.Join(dedup(rb), "; "))
+	}
 	// ---- callers: default + kind
 	checkC08Callers(p, r, rh)
 
@@ -848,6 +898,12 @@ func checkC08Callers(p *an.Prog, r *an.Run, rh *ssa.Function) {
 			// id is the verified node id parameter
 			if _, ok := a[2].(*ssa.Parameter); !ok {
 				bad = append(bad, "requestHosts is not called with the endpoint's node id parameter")
+			}
+			// one request, one round: the bounds (count asked for, configured maximum) are enforced per call of
+			// requestHosts, so an endpoint that calls it in a loop and adds the results up can hand out several times
+			// the maximum
+			if in, ok := c.(ssa.Instruction); ok && onCycle(in.Block()) {
+				bad = append(bad, "requestHosts is called in a loop ("+p.Pos(c.Pos())+"): its per-call bounds no longer bound the reply")
 			}
 			// kind from the request
 			if !p.Derives(0, a[4]).HasFieldNamed("", "Kind") {
